@@ -8,7 +8,7 @@ package evaluator
 // evalFrame: heap classes no evaluation step ever changes for objects that already exist:
 // the AST and tokens, the shape of the scope chain, the evaluator's wiring, and the payload of
 // basic values (basic values are immutable once built: variables change by rebinding only).
-//@ frameset evalFrame = parser., lexer., evaluator.scope.outer, evaluator.scope.values, evaluator.Evaluator.global, evaluator.Evaluator.builtins, evaluator.Evaluator.yielder, evaluator.numVal.V, evaluator.stringVal.V, evaluator.boolVal.V, evaluator.anyVal.T, evaluator.anyVal.V, evaluator.Error, elem:parser.Node, elem:*parser.ConditionalBlock, elem:*parser.Var
+//@ frameset evalFrame = parser., lexer., evaluator.scope.outer, evaluator.scope.values, evaluator.Evaluator.global, evaluator.Evaluator.builtins, evaluator.Evaluator.yielder, evaluator.numVal.V, evaluator.stringVal.V, evaluator.boolVal.V, evaluator.anyVal.T, evaluator.anyVal.V, evaluator.Error, elem:parser.Node, elem:*parser.ConditionalBlock, elem:*parser.Var, elem:string@parser.MapLiteral.Order, map:string:parser.Node
 
 //@ typeinv Evaluator: self.scope != nil && self.global != nil
 // *Error reports the wrapped error through Unwrap.
@@ -393,3 +393,95 @@ package evaluator
 //@   ensures[C02 error-no-value] err != nil ==> r == nil
 //@   modifies allbut evalFrame
 //@   propagates (*Evaluator).eval
+
+//@ global forall(m, *parser.MapLiteral, wf(parser.Node(m)) ==> m != nil && forall(k, string, has(m.Pairs, k) ==> m.Pairs[k] != nil && wf(m.Pairs[k]) && isExpr(m.Pairs[k])) && forall(i, int, 0 <= i && i < len(m.Order) ==> has(m.Pairs, m.Order[i])))
+//@ global forall(a, *parser.AssignmentStmt, wf(parser.Node(a)) ==> (is(a.Target, *parser.Var) || is(a.Target, *parser.IndexExpression) || is(a.Target, *parser.DotExpression)) && ref(a.Target) != 0 && (is(a.Target, *parser.IndexExpression) ==> kind(a.Target.(*parser.IndexExpression).Left) == 5 || kind(a.Target.(*parser.IndexExpression).Left) == 6))
+
+//@ func (e *Evaluator) evalAssignment(assignment *parser.AssignmentStmt) (err error)
+//@   props C09 C10 C14 C01 C02
+//@   requires wf(parser.Node(assignment)) && storeOK()
+//@   let v = callres("(*Evaluator).eval", 1, 0)
+//@   ensures[C02 store] storeOK()
+//@   ensures[C10 scope-restored] e.scope == old(e.scope)
+//@   ensures[C01 value-first] ncalls("(*Evaluator).eval") >= 1 && callarg("(*Evaluator).eval", 1, 1) == assignment.Value
+//@   ensures[C09 C10 rebinds] err == nil && is(assignment.Target, *parser.Var) ==> ncalls("(*scope).update") == 1 && callarg("(*scope).update", 1, 0).(*scope) == e.scope && callarg("(*scope).update", 1, 1).(string) == assignment.Target.(*parser.Var).Name && callarg("(*scope).update", 1, 2) == v
+//@   modifies allbut evalFrame
+//@   propagates (*Evaluator).eval (*Evaluator).evalAssignIndexExpr (*Evaluator).evalAssignDotExpr
+
+//@ func (e *Evaluator) evalAssignIndexExpr(expr *parser.IndexExpression, val value) (err error)
+//@   props C11 C12 C09 C10 C14 C02
+//@   requires wf(parser.Node(expr)) && storeOK() && okValue(val)
+//@   requires kind(expr.Left) == 5 || kind(expr.Left) == 6
+//@   let lv = callres("(*Evaluator).eval", 1, 0)
+//@   let iv = callres("(*Evaluator).eval", 2, 0)
+//@   ensures[C02 store] storeOK()
+//@   ensures[C10 scope-restored] e.scope == old(e.scope)
+//@   ensures[C01 left-then-index] ncalls("(*Evaluator).eval") >= 1 && callarg("(*Evaluator).eval", 1, 1) == expr.Left && (ncalls("(*Evaluator).eval") == 2 ==> callarg("(*Evaluator).eval", 2, 1) == expr.Index)
+//@   ensures[C11 C09 array] err == nil && is(lv, *arrayVal) ==> ncalls("(*arrayVal).SetIndex") == 1 && callarg("(*arrayVal).SetIndex", 1, 0).(*arrayVal) == lv.(*arrayVal) && callarg("(*arrayVal).SetIndex", 1, 1) == iv && callarg("(*arrayVal).SetIndex", 1, 2) == val && callres("(*arrayVal).SetIndex", 1, 0) == nil
+//@   ensures[C12 C09 map] err == nil && is(lv, *mapVal) ==> ncalls("(*mapVal).SetKey") == 1 && callarg("(*mapVal).SetKey", 1, 0).(*mapVal) == lv.(*mapVal) && is(iv, *stringVal) && callarg("(*mapVal).SetKey", 1, 1).(string) == iv.(*stringVal).V && callarg("(*mapVal).SetKey", 1, 2) == val
+//@   ensures[C11 bad-index] ncalls("(*arrayVal).SetIndex") == 1 && callres("(*arrayVal).SetIndex", 1, 0) != nil ==> err != nil && wraps(err, ErrPanic)
+//@   modifies allbut evalFrame
+//@   propagates (*Evaluator).eval
+
+//@ func (e *Evaluator) evalAssignDotExpr(expr *parser.DotExpression, val value) (err error)
+//@   props C12 C09 C10 C14 C02
+//@   requires wf(parser.Node(expr)) && storeOK() && okValue(val)
+//@   ensures[C02 store] storeOK()
+//@   ensures[C10 scope-restored] e.scope == old(e.scope)
+//@   ensures[C12 C09 map] err == nil ==> ncalls("(*mapVal).SetKey") == 1 && callarg("(*mapVal).SetKey", 1, 0).(*mapVal) == callres("(*Evaluator).evalDotLeft", 1, 0).(*mapVal) && callarg("(*mapVal).SetKey", 1, 1).(string) == expr.Key && callarg("(*mapVal).SetKey", 1, 2) == val
+//@   modifies allbut evalFrame
+//@   propagates (*Evaluator).evalDotLeft
+
+//@ func (e *Evaluator) evalArrayLiteral(arr *parser.ArrayLiteral) (r value, err error)
+//@   props C01 C09 C10 C14 C02
+//@   requires wf(parser.Node(arr)) && storeOK()
+//@   ensures[C02 store] storeOK()
+//@   ensures[C10 scope-restored] e.scope == old(e.scope)
+//@   ensures[C09 fresh-array] err == nil ==> is(r, *arrayVal) && fresh(r) && fresh(r.(*arrayVal).Elements) && len(*r.(*arrayVal).Elements) == len(arr.Elements) && okValue(r)
+//@   ensures[C01 elements] ncalls("(*Evaluator).evalExprList") == 1
+//@   ensures[C02 error-no-value] err != nil ==> r == nil
+//@   modifies allbut evalFrame
+//@   propagates (*Evaluator).evalExprList
+
+//@ func (e *Evaluator) evalMapLiteral(m *parser.MapLiteral) (r value, err error)
+//@   props C12 C09 C10 C14 C02
+//@   requires wf(parser.Node(m)) && storeOK()
+//@   ensures[C02 store] storeOK()
+//@   ensures[C10 scope-restored] e.scope == old(e.scope)
+//@   ensures[C09 C12 fresh-map] err == nil ==> is(r, *mapVal) && fresh(r) && fresh(r.(*mapVal).Pairs) && fresh(r.(*mapVal).Order) && fresh(*r.(*mapVal).Order) && okValue(r)
+//@   ensures[C12 literal-order] err == nil ==> len(*r.(*mapVal).Order) == len(m.Order) && forall(i, int, 0 <= i && i < len(m.Order) ==> (*r.(*mapVal).Order)[i] == m.Order[i])
+//@   ensures[C12 literal-keys] err == nil ==> forall(k, string, has(r.(*mapVal).Pairs, k) == has(m.Pairs, k))
+//@   ensures[C02 error-no-value] err != nil ==> r == nil
+//@   modifies allbut evalFrame
+//@   propagates (*Evaluator).eval
+//@   loop 1 invariant e.scope == old(e.scope) && pending() == nil && storeOK() && fresh(pairs)
+//@   loop 1 invariant forall(k, string, has(pairs, k) ==> okValue(pairs[k]))
+//@   loop 1 invariant forall(k, string, has(pairs, k) ==> has(m.Pairs, k))
+//@   loop 1 invariant forall(k, string, has(pairs, k) == seen(k))
+
+//@ func (e *Evaluator) evalNum(n parser.Node) (f float64, err error)
+//@   props C10 C14 C02
+//@   requires n != nil && wf(n) && isExpr(n) && storeOK()
+//@   ensures[C02 store] storeOK()
+//@   ensures[C10 scope-restored] e.scope == old(e.scope)
+//@   ensures[C10 number] err == nil ==> is(callres("(*Evaluator).eval", 1, 0), *numVal) && same(f, callres("(*Evaluator).eval", 1, 0).(*numVal).V)
+//@   ensures[C01 once] ncalls("(*Evaluator).eval") == 1 && callarg("(*Evaluator).eval", 1, 1) == n
+//@   modifies allbut evalFrame
+//@   propagates (*Evaluator).eval
+
+//@ iface (r ranger) next(scope *scope, loopVarName string) (ok bool)
+//@   trusted
+//@   requires scope != nil
+//@   modifies class evaluator.stepRange.cur, class evaluator.arrayRange.cur, class evaluator.mapRange.cur, class evaluator.stringRange, class evaluator.stringVal.runeSlice, class elem:rune, owned scope.values
+//@   ensures storeOK()
+
+// Built-in functions are function values stored in a table; every one of them keeps to this frame:
+// it never touches the syntax tree, the scope chain's shape, the evaluator's wiring or the payload of
+// basic values (the err/errmsg protocol of str2num/str2bool is the documented exception, see C09).
+//@ func type builtinFunc(scope *scope, args []value) (r value, err error)
+//@   trusted
+//@   requires scope != nil
+//@   ensures storeOK()
+//@   ensures err == nil ==> r != nil && ref(r) != 0
+//@   ensures err != nil ==> r == nil
+//@   modifies allbut evalFrame
